@@ -29,9 +29,56 @@ static void logit(int fd, const char *what) {
     }
 }
 
+/* $VERIF_IOFAIL_SYNC = "<path substring>:<n>": the n-th fsync / fdatasync (counted from the moment
+ * the variable took this value) of a file whose path contains the substring fails with EIO, once;
+ * logged to $FSYNCLOG as "syncfail <path> <n>". */
+#include <errno.h>
+#include <string.h>
+static int sync_must_fail(int fd) {
+    static char last[256];
+    static long seen;
+    static int fired;
+    const char *spec = getenv("VERIF_IOFAIL_SYNC");
+    if (!spec || !*spec) return 0;
+    if (strncmp(spec, last, sizeof last - 1) != 0) {
+        strncpy(last, spec, sizeof last - 1);
+        seen = 0;
+        fired = 0;
+    }
+    const char *colon = strrchr(spec, ':');
+    if (!colon || fired) return 0;
+    long n = atol(colon + 1);
+    char sub[200];
+    size_t sl = (size_t)(colon - spec);
+    if (sl >= sizeof sub) sl = sizeof sub - 1;
+    memcpy(sub, spec, sl);
+    sub[sl] = 0;
+    char link[64], path[4096];
+    snprintf(link, sizeof link, "/proc/self/fd/%d", fd);
+    ssize_t m = readlink(link, path, sizeof path - 1);
+    if (m <= 0) return 0;
+    path[m] = 0;
+    if (!strstr(path, sub)) return 0;
+    seen++;
+    if (seen != n) return 0;
+    fired = 1;
+    const char *lp = getenv("FSYNCLOG");
+    if (lp) {
+        char line[4400];
+        int k = snprintf(line, sizeof line, "syncfail %s %ld\n", path, n);
+        int o = open(lp, O_WRONLY | O_APPEND | O_CREAT, 0644);
+        if (o >= 0) {
+            if (write(o, line, k) < 0) { /* nothing to do */ }
+            close(o);
+        }
+    }
+    return 1;
+}
+
 int fsync(int fd) {
     static int (*real)(int);
     if (!real) real = (int (*)(int))dlsym(RTLD_NEXT, "fsync");
+    if (sync_must_fail(fd)) { errno = EIO; return -1; }
     int r = real(fd);
     if (r == 0) logit(fd, "fsync");
     return r;
@@ -40,6 +87,7 @@ int fsync(int fd) {
 int fdatasync(int fd) {
     static int (*real)(int);
     if (!real) real = (int (*)(int))dlsym(RTLD_NEXT, "fdatasync");
+    if (sync_must_fail(fd)) { errno = EIO; return -1; }
     int r = real(fd);
     if (r == 0) logit(fd, "fdatasync");
     return r;
